@@ -260,7 +260,7 @@ func TestVfC10Rules(t *testing.T) {
 				before[i] = u.NumQueries()
 			}
 			id := uint16(1000 + qi)
-			res := a.Ask("udp", Query(id, wn, qtype, qclass, false), 3*time.Second, 0)
+			res := a.AskPatient("udp", Query(id, wn, qtype, qclass, false), 3*time.Second)
 			if len(res.Resps) == 0 {
 				res = a.Ask("udp", Query(id, wn, qtype, qclass, false), 3*time.Second, 0)
 			}
